@@ -313,3 +313,29 @@ ADDENDA = {
 for _pid, _txt in ADDENDA.items():
     if _pid in CLAIMS and _txt not in CLAIMS[_pid]["text"]:
         CLAIMS[_pid]["text"] += _txt
+
+# what seeding round i (DESIGN §7.13: changes in modules the properties depend on only transitively) added
+ADDENDA_I = {
+    "C01": " Round i: escaped literals keep their backslash in the rebuilt pattern (R11); per-node helpers of the $ref-pruning worklist read their own node, not the root (R12).",
+    "C02": " Round i: the operation/path-level parameter merge replaces a definition whole, never field by field - the schema that is negated is the declared one (R12).",
+    "C03": " Round i: escaped literals keep their backslash in the pattern the coverage phase rebuilds (R9).",
+    "C04": " Round i: completeness of the keyword whitelist the documented response headers are validated through (R11).",
+    "C05": " Round i: the identity of NonFatalError (events are collected in a set) keeps the label unconditionally (O14).",
+    "C06": " Round i: every join of a templated path onto a base quotes the relative part first - also get_full_path behind the WSGI transport (R3 clause).",
+    "C07": " Round i: RFC 6901 escape order at every ~0/~1 site of the package (R10).",
+    "C08": " Round i: the merge helper's parameter identity is (name as written, in) also through a key helper, and definitions are replaced whole (R2 clauses); allow-list form of the YAML key rule decided (R5).",
+    "C09": " Round i: the probe case built by remove_auth owns its containers on every path (reaching definitions, R9).",
+    "C10": " Round i: RFC 6901 escape order (R11); every transport keeps all field lines of a repeated response header (R12).",
+    "C12": " Round i: the limiter fails closed - no raise_when_fail=False while ratelimit() discards try_acquire's result (R5 clause).",
+    "C13": " Round i: the result of a memoised function is never mutated by a caller, directly or through an alias on any path (R8, whole package).",
+    "C14": " Round i: every scheme of every security requirement object becomes a parameter (R10).",
+    "C15": " Round i: configure()/extend() rebind the process-wide sanitization config from its current value (R7).",
+    "C16": " Round i: a case handed to record_case owns its id - no field-for-field copy of another case (R13).",
+    "C17": " Round i: the parameters examples are extracted from are identified by (name as written, in) in the path-level merge (R10).",
+    "C18": " Round i: a container is marked 'not generated' only under equality of the whole container with the explicit value (R8).",
+    "C19": " Round i: every value a spec function returns after handing a container to apply_to_all_dispatchers derives from that call (R3c).",
+    "C20": " Round i: FilterSet.clone owns copies of both sets, so sibling derived schemas do not share filters (R6).",
+}
+for _pid, _txt in ADDENDA_I.items():
+    if _pid in CLAIMS and _txt not in CLAIMS[_pid]["text"]:
+        CLAIMS[_pid]["text"] += _txt
